@@ -1,8 +1,9 @@
 """C17 — metadata set through the API is returned exactly and survives reopening."""
 from . import common as C
+from . import apilib as A
 
 PID = "C17"
-MODULE = "CfbVerif.Props.C17"
+MODULE = "CfbVerif.Props.All17"
 
 
 def signature(msg):
@@ -29,6 +30,15 @@ def run(ctx):
     total = C.line_corpus(ctx, "time", thm)
     n, hist, samples = C.line_campaign(ctx, "time", ctx.seed, 300000 if quick else 5000000, signature, thm)
     total += n
+    # API level: setters on every kind of object, listings, reopen in both modes
+    api_h = 0
+    for tag, args in [("meta-api", ["--seed", ctx.seed, "--count", 300 if quick else 5000, "--max-ops", 50, "--reopen-pct", 10, "--meta-heavy"])]:
+        stat, h2, sample = A.campaign(ctx, args, tag, "CfbVerif.Props.C01.C01_setMeta (model Dir no longer corresponds to lib.rs)")
+        total += stat.get("ops", 0)
+        api_h += stat.get("histories", 0)
+        for k, v in h2.items():
+            hist["api:" + k] = hist.get("api:" + k, 0) + v
+    ctx.coverage["traces_validated_against_impl"] = api_h
     ctx.coverage.update({
         "evaluations": total,
         "distinct_nontrivial": total,
